@@ -150,9 +150,16 @@ def check(run):
     wits = []
     # ---- S1: lexing + parsing of arbitrary text (shared with C12) ----------
     tins, n_exh = c12.text_inputs(run)
-    tres = vlib.run_harness("lexparse", [{"text": t} for t in tins], shards=vlib.NCPU)
+    try:
+        tres = vlib.run_harness("lexparse", [{"text": t, "timeout_ms": 3000} for t in tins], shards=vlib.NCPU)
+    except vlib.Hang as h:
+        tres = []
+        for x in h.inputs:
+            wits.append({"kind": "lexing/parsing gave no result within 3 s (hang)", "text": x["text"], "entry": "parser::parse"})
     for t, r in zip(tins, tres):
-        if "panic" in r:
+        if r.get("timeout"):
+            wits.append({"kind": "lexing/parsing gave no result within 3 s (hang)", "text": t, "entry": "parser::parse"})
+        elif "panic" in r:
             wits.append({"kind": "lexing/parsing panicked: " + r["panic"][:200], "text": t, "entry": "parser::parse"})
         else:
             for d in r["diags"]:
@@ -198,7 +205,12 @@ def check(run):
         with open(os.path.join(d, "main.gom"), "w") as f:
             f.write(src)
         inputs.append({"path": os.path.join(d, "main.gom"), "timeout_ms": 8000})
-    cres = vlib.run_harness("compile", inputs, shards=vlib.NCPU, timeout=1800)
+    try:
+        cres = vlib.run_harness("compile", inputs, shards=vlib.NCPU, timeout=1800)
+    except vlib.Hang as h:
+        cres = []
+        for x in h.inputs:
+            wits.append({"kind": "no result within the time limit (hang)", "program": open(x["path"], encoding="utf-8").read(), "entry": "pipeline::compile"})
     stats = {"ok": 0, "parser": 0, "lower": 0, "typer": 0, "compile": 0}
     for src, r in zip(progs, cres):
         msg = acceptable(r)
